@@ -22,6 +22,8 @@ RULE = (
     "calls; no match => serialisation byte-identical (with or without exception); removals keep every character outside the "
     "removed element. Non-trivial = target text node is a tail or produced by an earlier insertion, or offset on a node "
     "boundary; distinct by (layout, ops)."
+    ' Also the kind refmark-end: a point reference mark, set_reference_mark_end, then a second call that moves the end (one'
+    ' start, one end, no point mark, at the designated offsets, text unchanged).'
 )
 ASSUMPTIONS = [
     "lib/odfread.plain_projection / raw_text are correct readers (lxml)",
